@@ -11,12 +11,14 @@ flags:  std=8      only valid from Fortran 2008
         where/forall=True   may appear in a WHERE / FORALL body
         bdata=True may appear in BLOCK DATA ; blk=True may appear in a BLOCK spec part
         mod=False  not allowed in a module specification part
+        solo=True  the statement triggers a known finding of fparser1: it is used alone (variant sweep), never in simulated programs,
+                   so that two known findings cannot meet in one program
 """
 
 
 def V(text, **kw):
     d = {"text": text, "std": 3, "one": False, "req": "", "where": False, "forall": False,
-         "bdata": False, "blk": False, "mod": True, "proc": True, "head": False}
+         "bdata": False, "blk": False, "mod": True, "proc": True, "head": False, "solo": False}
     d.update(kw)
     return d
 
@@ -491,6 +493,16 @@ def tla_split(tab, xs):
     return tla_set(core) + " \\cup Ext(" + tla_set(ext) + ")"
 
 
+def do_term_ok(v):
+    """May the statement terminate a non-block DO (R830: an action statement other than CONTINUE, GOTO, RETURN, STOP,
+    EXIT, CYCLE, arithmetic IF)?  Conservative: IF / WHERE / FORALL statements carrying one of those are left out too."""
+    import re
+    t = v["text"]
+    if v["req"] or re.search(r"\b(go ?to|return|stop|exit|cycle|continue|assign)\b", t) or re.match(r"if \(.*\) *\d+ *, *\d+", t):
+        return False
+    return True
+
+
 def gen_tla(path):
     """Write specs/Catalogue_gen.tla: the variant id sets the grammar's guards need."""
     L = []
@@ -510,6 +522,8 @@ def gen_tla(path):
     A("SimpleWhereOK == " + tla_set(ids(SIMPLE, lambda v: v["where"])))
     A("SimpleForallOK == " + tla_set(ids(SIMPLE, lambda v: v["forall"])))
     A("SimpleOne == " + tla_split(SIMPLE, ids(SIMPLE, lambda v: v["one"])))
+    A("SimpleDoTermOK == " + tla_set(ids(SIMPLE, do_term_ok)))
+    A("SimpleSolo == " + tla_set(ids(SIMPLE, lambda v: v["solo"])))
     A("DeclAll == " + tla_split(DECL, ids(DECL)))
     A("Decl08 == " + tla_set(ids(DECL, lambda v: v["std"] == 8)))
     A("DeclNeedsProc == " + tla_set(ids(DECL, lambda v: v["req"] == "proc")))
